@@ -72,34 +72,35 @@ impl Default for LocalMetadataClient {
 #[async_trait]
 impl MetadataClient for LocalMetadataClient {
     async fn register_chunk(&self, path: &str, metadata: &ChunkMetadata) -> Result<()> {
+        // Index into all hour buckets that this chunk spans
+        let start_bucket = Self::hour_bucket(metadata.min_timestamp);
+        let end_bucket = Self::hour_bucket(metadata.max_timestamp);
+
+        // Chunk map, index and level change together under the index lock: an overlapping
+        // delete_chunk of the same path sees all of this registration or none of it.
+        let mut time_index = self.time_index.write();
+
         // Store chunk metadata
         let registered_before = self
             .chunks
             .insert(path.to_string(), metadata.clone())
             .is_some();
 
-        // Index into all hour buckets that this chunk spans
-        let start_bucket = Self::hour_bucket(metadata.min_timestamp);
-        let end_bucket = Self::hour_bucket(metadata.max_timestamp);
-
-        {
-            let mut time_index = self.time_index.write();
-            if registered_before {
-                // Re-registration: the index must list the path once, under the new range only
-                for chunks in time_index.values_mut() {
-                    chunks.retain(|p| p != path);
-                }
-                time_index.retain(|_, chunks| !chunks.is_empty());
+        if registered_before {
+            // Re-registration: the index must list the path once, under the new range only
+            for chunks in time_index.values_mut() {
+                chunks.retain(|p| p != path);
             }
-            let mut bucket = start_bucket;
-            while bucket <= end_bucket {
-                time_index.entry(bucket).or_default().push(path.to_string());
-                // checked: the last representable hour bucket has no successor
-                bucket = match bucket.checked_add(Self::NANOS_PER_HOUR) {
-                    Some(b) => b,
-                    None => break,
-                };
-            }
+            time_index.retain(|_, chunks| !chunks.is_empty());
+        }
+        let mut bucket = start_bucket;
+        while bucket <= end_bucket {
+            time_index.entry(bucket).or_default().push(path.to_string());
+            // checked: the last representable hour bucket has no successor
+            bucket = match bucket.checked_add(Self::NANOS_PER_HOUR) {
+                Some(b) => b,
+                None => break,
+            };
         }
 
         // Set level to 0 (uncompacted)
@@ -155,24 +156,23 @@ impl MetadataClient for LocalMetadataClient {
     }
 
     async fn delete_chunk(&self, path: &str) -> Result<()> {
+        // Same lock as register_chunk, held across the map, index and level updates
+        let mut time_index = self.time_index.write();
         if let Some((_, meta)) = self.chunks.remove(path) {
             // Remove from all hour buckets this chunk was indexed into
             let start_bucket = Self::hour_bucket(meta.min_timestamp);
             let end_bucket = Self::hour_bucket(meta.max_timestamp);
 
-            {
-                let mut time_index = self.time_index.write();
-                let mut bucket = start_bucket;
-                while bucket <= end_bucket {
-                    if let Some(paths) = time_index.get_mut(&bucket) {
-                        paths.retain(|p| p != path);
-                    }
-                    // checked: the last representable hour bucket has no successor
-                    bucket = match bucket.checked_add(Self::NANOS_PER_HOUR) {
-                        Some(b) => b,
-                        None => break,
-                    };
+            let mut bucket = start_bucket;
+            while bucket <= end_bucket {
+                if let Some(paths) = time_index.get_mut(&bucket) {
+                    paths.retain(|p| p != path);
                 }
+                // checked: the last representable hour bucket has no successor
+                bucket = match bucket.checked_add(Self::NANOS_PER_HOUR) {
+                    Some(b) => b,
+                    None => break,
+                };
             }
         }
         self.chunk_levels.remove(path);
